@@ -39,7 +39,9 @@ ghost("runs", "int")
 contract("AsyncJob.is_complete", kind="assumed",
          params=[("self", "Ref[AsyncJob]")], returns="bool",
          # a node-level job must not be polled again once it was seen complete (AsyncCliCommand asserts on it); canceled jobs and batches may be
-         requires=["not self.g_done or self.g_canceled or self.g_is_batch"],
+         requires=["not self.g_done or self.g_canceled or self.g_is_batch",
+                   # only a job that was started or canceled is polled (AsyncCliCommand.is_complete dereferences the process handle)
+                   "self.g_launched >= 1 or self.g_canceled or self.g_is_batch"],
          ensures=["result == self.g_done", "implies(old(self.g_done), self.g_done)",
                   "implies(result, not isnone(self.return_code))",
                   "self.g_launched == old(self.g_launched) and self.g_canceled == old(self.g_canceled)",
@@ -50,6 +52,8 @@ contract("AsyncJob.is_complete", kind="assumed",
          note="AsyncJobInterface.is_complete: completion is sticky; a complete job has a return code")
 contract("AsyncJob.run", kind="assumed",
          params=[("self", "Ref[AsyncJob]")], returns="Enum[Status]",
+         # a node-level job object is started at most once and never after it was canceled (AsyncCliCommand.run asserts the former)
+         requires=["self.g_is_batch or (self.g_launched == 0 and not self.g_canceled)"],
          ensures=["self.g_launched == old(self.g_launched) + 1", "ghost.runs == old(ghost.runs) + 1",
                   "implies(result == Status.GOOD and self.g_is_batch, not isnone(self.job_id))",
                   "implies(result == Status.GOOD, not self.g_done or self.g_is_batch)"],
@@ -81,7 +85,11 @@ define("COUNT", ["q"], "q._num_jobs - q._num_completed - nout(q)")
 # capacity invariant (C06)
 define("Inv_cap", ["q"], "nout(q) <= q._queue_depth")
 # no outstanding node-level job has already been seen complete (it would be popped); canceled jobs and batches may be polled again
-define("OUT_OK", ["q"], "forall(x, q._outstanding_jobs, not q._outstanding_jobs[x].g_done or q._outstanding_jobs[x].g_canceled or q._outstanding_jobs[x].g_is_batch)")
+define("OUT_OK", ["q"], "forall(x, q._outstanding_jobs, not q._outstanding_jobs[x].g_done or q._outstanding_jobs[x].g_canceled or q._outstanding_jobs[x].g_is_batch) "
+                        "and LAUNCHED_OK(q)")
+# every outstanding entry was started (or canceled): only such jobs may be polled
+define("LAUNCHED_OK", ["q"], "forall(x, q._outstanding_jobs, q._outstanding_jobs[x].g_launched >= 1 or q._outstanding_jobs[x].g_canceled or q._outstanding_jobs[x].g_is_batch)")
+RUNNABLE = "job.g_is_batch or (job.g_launched == 0 and not job.g_canceled)"
 define("BATCH_ONLY", ["q"], "len(q._queued_jobs) == 0 and forall(x, q._outstanding_jobs, q._outstanding_jobs[x].g_is_batch)")
 # every outstanding entry of a submitter's queue is an allocated batch with a scheduler id
 define("Inv_ids", ["q"], "forall(x, q._outstanding_jobs, allocated(q._outstanding_jobs[x]) and q._outstanding_jobs[x].g_is_batch and not isnone(q._outstanding_jobs[x].job_id))")
@@ -92,7 +100,8 @@ contract("JobQueue._run_job", file=F,
          requires=["nout(self) < self._queue_depth",          # C06: only called with a free slot
                    "empty(job.blocking)",                      # C02: never called for a job that still has blockers
                    "forall(x, self._outstanding_jobs, self._outstanding_jobs[x] != job)",    # C01: a job object is started at most once
-                   "job.name not in self._outstanding_jobs"],                                 # A-names: queue names are unique
+                   "job.name not in self._outstanding_jobs",                                  # A-names: queue names are unique
+                   RUNNABLE],                                  # C02/C04: never started before, not canceled
          ensures=["job.g_launched == old(job.g_launched) + 1", "ghost.runs == old(ghost.runs) + 1", "COUNT(self) == old(COUNT(self))",
                   "unchanged(AsyncJob.g_canceled) and unchanged(AsyncJob.blocking) and unchanged(AsyncJob.name)",
                   "unchanged(AsyncJob.g_launched, job)",
@@ -109,7 +118,7 @@ contract("JobQueue._run_job", file=F,
 
 contract("JobQueue.submit", file=F,
          params=[("self", "Ref[JobQueue]"), ("job", "Ref[AsyncJob]")],
-         requires=["Inv_cap(self)", "forall(x, self._outstanding_jobs, self._outstanding_jobs[x] != job)", "job.name not in self._outstanding_jobs"],
+         requires=["Inv_cap(self)", "forall(x, self._outstanding_jobs, self._outstanding_jobs[x] != job)", "job.name not in self._outstanding_jobs", RUNNABLE],
          ensures=["Inv_cap(self)", "COUNT(self) == old(COUNT(self))",
                   "self._queue_depth == old(self._queue_depth)",
                   # started at once iff there is a free slot and nothing blocks it; otherwise queued, not started
@@ -166,6 +175,7 @@ define("OUT", ["q"], "q._outstanding_jobs")
 define("QD", ["q"], "q._queued_jobs")
 define("Inv_q", ["q"], """(
     forall(x, OUT(q), OUT(q)[x].name == x and (not OUT(q)[x].g_done or OUT(q)[x].g_canceled or OUT(q)[x].g_is_batch))
+    and LAUNCHED_OK(q)
     and forall(i, range(len(QD(q))), not QD(q)[i].g_canceled and QD(q)[i].g_launched == 0 and QD(q)[i].name not in OUT(q))
     and forall(i, range(len(QD(q))), forall(j, range(i), QD(q)[i].name != QD(q)[j].name and QD(q)[i] != QD(q)[j])))""")
 # COUNT (defined above): started-but-not-completed bookkeeping, zero for a queue that started all its jobs itself (JobQueue.wait's assert)
@@ -181,6 +191,7 @@ CC_COMMON = [
     "implies(old(BATCH_ONLY(self)), ghost.collected == old(ghost.collected) and ghost.collected_failed == old(ghost.collected_failed) and len(QD(self)) == 0 and forall(x, OUT(self), OUT(self)[x].g_is_batch))",
     "self._queue_depth == old(self._queue_depth)",
     "forall(x, OUT(self), OUT(self)[x].name == x)",
+    "LAUNCHED_OK(self)",
 ]
 # clauses about `outstanding`: an entry is an original one, or a job canceled here (complete, waiting to be popped by the next pass)
 A_ = "(x in O0() and OUT(self)[x] == O0()[x])"
